@@ -139,5 +139,10 @@ func (tracker *TxTracker) Check(ctx context.Context, mempool *MemPool, transmitt
 		} // else wait and check again later
 	}
 
+	if len(invRequest.InvList) > 0 {
+		// Send the remaining requests
+		transmitter.TransmitMessage(invRequest)
+	}
+
 	return nil
 }
